@@ -792,3 +792,177 @@ Theorem select_unknown r0 rr : get_procs ord g 0%N (r0 :: rr) = None ->
 Proof. intros Hg. unfold select. now rewrite post_order_sel_err. Qed.
 
 End Top.
+
+(* ================================================================ what Run() starts *)
+Lemma run_set_sound ord g r : ord_ok ord -> run_set ord g (wp_fuel g) = Some r ->
+  forall k, In k r -> exists p, In p g /\ key p = k /\ dis p = false /\ fg p = false.
+Proof.
+  intros Hord H k Hk. unfold run_set, dep_order in H.
+  destruct (post_order_term ord g Hord []) as [e [post [Hp Hi]]]. rewrite Hp in H. cbn in H.
+  injection H as <-. destruct e; [contradiction|].
+  apply in_map_iff in Hk. destruct Hk as [p [Hpk Hpf]]. apply filter_In in Hpf. destruct Hpf as [Hpp Hd].
+  exists p. unfold deferred in Hd. apply negb_true_iff, orb_false_iff in Hd. destruct Hd. auto.
+Qed.
+
+Lemma clone_In cfg p : In p (clone cfg) ->
+  exists c, In c cfg /\ In (key p) (c_keys c) /\ pname p = c_name c /\ deps p = c_deps c /\
+            dis p = c_dis c /\ fg p = c_fg c /\ ns p = c_ns c.
+Proof.
+  unfold clone. intros H. apply in_flat_map in H. destruct H as [c [Hc Hp]].
+  apply in_map_iff in Hp. destruct Hp as [k [<- Hk]]. exists c. cbn. auto 10.
+Qed.
+
+Lemma clone_keys cfg k : In k (keys (clone cfg)) <-> exists c, In c cfg /\ In k (c_keys c).
+Proof.
+  split.
+  - intros H. apply in_map_iff in H. destruct H as [p [<- Hp]]. apply clone_In in Hp.
+    destruct Hp as [c [Hc [Hk _]]]. eauto.
+  - intros [c [Hc Hk]]. apply in_map_iff.
+    exists (mkProc k (c_name c) (c_deps c) (c_dis c) (c_fg c) (c_ns c)). split; auto.
+    unfold clone. apply in_flat_map. exists c. split; auto. apply in_map_iff. eauto.
+Qed.
+
+Lemma admit_In nss g p : In p (admit nss g) -> In p g /\ (nss = [] \/ In (ns p) nss).
+Proof.
+  unfold admit. destruct nss as [|a r]; [auto|]. intros H. apply filter_In in H. destruct H as [H1 H2].
+  split; auto. right. now apply mem_In.
+Qed.
+
+Lemma select_In ord fuel g req g2 q : select ord fuel g req = Ok g2 -> In q g2 ->
+  exists p, In p g /\ key q = key p /\ fg q = fg p /\ ns q = ns p /\ (req = [] -> q = p).
+Proof.
+  unfold select. destruct req as [|r0 rr].
+  - intros H Hq. injection H as <-. exists q. auto.
+  - destruct (post_order ord g fuel (r0 :: rr)) as [[[] post]|]; try discriminate.
+    intros H Hq. injection H as <-. apply in_map_iff in Hq. destruct Hq as [p [<- Hp]].
+    exists p. cbn. repeat split; auto. discriminate.
+Qed.
+
+Lemma select_nodeps_In g req q : In q (select_nodeps g req) ->
+  exists p, In p g /\ key q = key p /\ fg q = fg p /\ ns q = ns p /\ (req = [] -> q = p).
+Proof.
+  unfold select_nodeps. destruct req as [|r0 rr].
+  - intros Hq. exists q. auto.
+  - intros Hq. apply in_map_iff in Hq. destruct Hq as [p [<- Hp]]. exists p.
+    destruct (mem (pname p) (r0 :: rr)); cbn; repeat split; auto; discriminate.
+Qed.
+
+(* no-deps selection: exactly the processes whose Name was requested stay enabled, without dependencies *)
+Theorem select_nodeps_spec g r0 rr q : In q (select_nodeps g (r0 :: rr)) ->
+  (dis q = false <-> In (pname q) (r0 :: rr)) /\ (dis q = false -> deps q = []) /\
+  exists p, In p g /\ key q = key p /\ pname q = pname p /\ fg q = fg p.
+Proof.
+  unfold select_nodeps. intros Hq. apply in_map_iff in Hq. destruct Hq as [p [<- Hp]].
+  destruct (mem (pname p) (r0 :: rr)) eqn:Em; cbn [clear_deps set_dis dis deps pname key fg].
+  - apply mem_In in Em. split; [tauto|]. split; auto. exists p. auto.
+  - apply mem_nIn in Em. split; [split; [discriminate|tauto]|]. split; [discriminate|]. exists p. auto.
+Qed.
+
+(* whatever Run() hands to runProcess is an admitted, enabled, non-foreground process *)
+Theorem never_started ord i g1 pl : ord_ok ord -> pipeline ord i = OPlan g1 pl ->
+  forall k, In k (p_run pl) ->
+  exists p, In p (p_project pl) /\ key p = k /\ dis p = false /\ fg p = false /\
+            (i_nss i = [] \/ In (ns p) (i_nss i)) /\
+            exists c, In c (i_cfg i) /\ In k (c_keys c) /\ c_fg c = false /\ c_ns c = ns p /\
+                      (i_req i = [] -> c_dis c = false).
+Proof.
+  intros Hord H k Hk. unfold pipeline in H.
+  destruct (validate ord (clone (i_cfg i)) (cyc_fuel (clone (i_cfg i))) (i_strict i)) as [[]|]; try discriminate.
+  set (g0 := clone (i_cfg i)) in *. set (ga := admit (i_nss i) g0) in *.
+  assert (Hsel : forall g2 q, (if i_nodeps i then Ok (select_nodeps ga (i_req i)) else select ord (wp_fuel ga) ga (i_req i)) = Ok g2 ->
+            In q g2 -> exists p, In p ga /\ key q = key p /\ fg q = fg p /\ ns q = ns p /\ (i_req i = [] -> q = p)).
+  { intros g2 q Hs Hq. destruct (i_nodeps i).
+    - injection Hs as <-. now apply select_nodeps_In.
+    - eapply select_In; eauto. }
+  destruct (if i_nodeps i then Ok (select_nodeps ga (i_req i)) else select ord (wp_fuel ga) ga (i_req i)) as [| |g2]; try discriminate.
+  destruct (dep_order ord g2 (wp_fuel g2)) as [[e o]|] eqn:Ed; [|discriminate].
+  destruct (run_set ord g2 (wp_fuel g2)) as [r|] eqn:Er; [|discriminate].
+  injection H as <- <-. cbn [p_run p_project] in *.
+  destruct (run_set_sound ord g2 r Hord Er k Hk) as [q [Hq [Hqk [Hqd Hqf]]]].
+  destruct (Hsel g2 q eq_refl Hq) as [p [Hp [Hk1 [Hf1 [Hn1 Hreq]]]]].
+  apply admit_In in Hp. destruct Hp as [Hp0 Hns]. apply clone_In in Hp0.
+  destruct Hp0 as [c [Hc [Hck [_ [_ [Hcd [Hcf Hcn]]]]]]].
+  exists q. repeat split; auto.
+  - rewrite Hn1. exact Hns.
+  - exists c. repeat split; auto; try congruence.
+    intros Hr. rewrite <- Hcd. rewrite <- (Hreq Hr). exact Hqd.
+Qed.
+
+(* ================================================================ finding F18 at configuration level *)
+Definition cfg_defined (cfg : list cproc) (d : N) : Prop :=
+  exists c, In c cfg /\ (d = c_name c \/ In d (c_keys c)).
+Definition cfg_undefined (cfg : list cproc) : Prop :=
+  exists c d, In c cfg /\ In d (c_deps c) /\ ~ cfg_defined cfg d.
+(* no dependency names a process by a Name that is not one of its replica names *)
+Definition no_base_dep (cfg : list cproc) : bool :=
+  forallb (fun c => forallb (fun d => forallb (fun c' => negb (N.eqb d (c_name c')) || mem d (c_keys c')) cfg)
+                            (c_deps c)) cfg.
+
+Lemma dangling_cfg cfg : (forall c, In c cfg -> c_keys c <> []) -> no_base_dep cfg = true ->
+  (dangling (clone cfg) <-> cfg_undefined cfg).
+Proof.
+  intros Hne Hnb. split.
+  - intros [p [d [Hp [Hd Hn]]]]. apply clone_In in Hp.
+    destruct Hp as [c [Hc [_ [_ [Hdeps _]]]]]. rewrite Hdeps in Hd.
+    exists c, d. repeat split; auto. intros [c' [Hc' [Hx|Hx]]].
+    + apply Hn. apply clone_keys. exists c'. split; auto.
+      unfold no_base_dep in Hnb. rewrite forallb_forall in Hnb. specialize (Hnb c Hc).
+      rewrite forallb_forall in Hnb. specialize (Hnb d Hd). rewrite forallb_forall in Hnb.
+      specialize (Hnb c' Hc'). apply orb_true_iff in Hnb. destruct Hnb as [X|X].
+      * apply negb_true_iff, N.eqb_neq in X. contradiction.
+      * now apply mem_In.
+    + apply Hn. apply clone_keys. eauto.
+  - intros [c [d [Hc [Hd Hn]]]]. destruct (c_keys c) as [|k ks] eqn:Ek; [exfalso; eapply Hne; eauto|].
+    exists (mkProc k (c_name c) (c_deps c) (c_dis c) (c_fg c) (c_ns c)), d. split; [|split; auto].
+    + unfold clone. apply in_flat_map. exists c. split; auto. rewrite Ek. now left.
+    + intros Hx. apply clone_keys in Hx. destruct Hx as [c' [Hc' Hk]]. apply Hn. exists c'. auto.
+Qed.
+
+Theorem load_partial ord cfg strict : ord_ok ord -> wf (clone cfg) ->
+  (forall c, In c cfg -> c_keys c <> []) -> no_base_dep cfg = true ->
+  exists v, validate ord (clone cfg) (cyc_fuel (clone cfg)) strict = Some v /\
+    (v <> VOk <-> has_cycle (clone cfg) \/ cfg_undefined cfg \/ (strict = true /\ disabled_dep (clone cfg))).
+Proof.
+  intros Hord Hwf Hne Hnb. destruct (validate_iff ord (clone cfg) strict Hord Hwf) as [v [Hv Hiff]].
+  exists v. split; auto. rewrite Hiff. rewrite (dangling_cfg cfg Hne Hnb). tauto.
+Qed.
+
+Definition f18_cfg : list cproc :=
+  [mkCproc 1 [2%N] false false 0 [1%N]; mkCproc 2 [] false false 0 [3%N; 4%N]].
+
+Theorem load_refuted : exists cfg, wf (clone cfg) /\ (forall c, In c cfg -> c_keys c <> []) /\
+  ~ has_cycle (clone cfg) /\ ~ cfg_undefined cfg /\
+  validate id_oracle (clone cfg) (cyc_fuel (clone cfg)) false = Some VUndefined.
+Proof.
+  exists f18_cfg. split; [|split; [|split; [|split]]].
+  - unfold wf. cbn. repeat constructor; cbn; intuition discriminate.
+  - intros c [<-|[<-|[]]]; discriminate.
+  - intros [n [m [[p [Hp [Hk Hm]]] Hpath]]]. cbn in Hp.
+    destruct Hp as [<-|[<-|[<-|[]]]]; cbn in Hm; try contradiction.
+    destruct Hm as [<-|[]]. cbn in Hk. subst n. inversion Hpath; subst.
+    destruct H as [q [Hq [Hqk Hqm]]]. cbn in Hq. destruct Hq as [<-|[<-|[<-|[]]]]; cbn in Hqk; discriminate.
+  - intros [c [d [Hc [Hd Hn]]]]. cbn in Hc. destruct Hc as [<-|[<-|[]]]; cbn in Hd; try contradiction.
+    destruct Hd as [<-|[]]. apply Hn. exists (mkCproc 2 [] false false 0 [3%N; 4%N]). split; [right; now left|now left].
+  - vm_compute. reflexivity.
+Qed.
+
+(* ================================================================ non-vacuity *)
+Definition ex_cfg : list cproc :=
+  [mkCproc 1 [2%N; 3%N] false false 0 [1%N];      (* a -> b, c *)
+   mkCproc 2 [3%N] true false 0 [2%N];            (* b -> c, disabled *)
+   mkCproc 3 [] false false 0 [3%N];              (* c *)
+   mkCproc 4 [3%N] false true 0 [4%N];            (* d -> c, foreground *)
+   mkCproc 5 [] false false 7 [6%N; 7%N]].        (* e, two replicas, other namespace *)
+
+Lemma ex_wf : wf (clone ex_cfg).
+Proof. unfold wf. cbn. repeat constructor; cbn; intuition discriminate. Qed.
+
+Lemma ex_closed : closed (clone ex_cfg).
+Proof. apply not_dangling_closed. rewrite <- has_undefined_iff. vm_compute. discriminate. Qed.
+
+Lemma ex_acyclic : ~ has_cycle (clone ex_cfg).
+Proof.
+  intros Hc.
+  assert (H : is_cyclic id_oracle (clone ex_cfg) (cyc_fuel (clone ex_cfg)) = Some false) by (vm_compute; reflexivity).
+  apply (is_cyclic_closed id_oracle _ id_oracle_ok ex_wf ex_closed _ _ H) in Hc. discriminate.
+Qed.
